@@ -90,10 +90,9 @@ Section Exporter.
   Definition infl_nf (st : est) : Z := qsum (s_queue st) + osum (s_cur st) + osum (s_hung st).
 
   (* K st x: every item given to Send is attributed to one of the three counters, or inside the
-     pipeline, or among the x items the caller holds (the flush queue is held by the caller);
-     items of wait-for-result Sends that returned the export's error are attributed twice *)
+     pipeline, or among the x items the caller holds (the flush queue is held by the caller) *)
   Definition K (st : est) (x : Z) : Prop :=
-    s_offered st + s_wfr_failed st = cnt sg (s_led st) + infl_nf st + x /\
+    s_offered st = cnt sg (s_led st) + infl_nf st + x /\
     0 <= osum (s_cur st) /\
     Forall (fun p => 0 <= snd p) (s_queue st).
 
@@ -108,13 +107,13 @@ Section Exporter.
   Definition frame (st st' : est) : Prop :=
     s_queue st' = s_queue st /\ s_cur st' = s_cur st /\ s_flushq st' = s_flushq st /\ s_hung st' = s_hung st /\
     s_down st' = s_down st /\ s_offered st' = s_offered st /\
-    s_wfr_failed st' - s_wfr_failed st = cnt sg (s_led st') - cnt sg (s_led st).
+    cnt sg (s_led st') = cnt sg (s_led st).
 
   Lemma frame_refl st : frame st st.
-  Proof. unfold frame. repeat split; lia. Qed.
+  Proof. unfold frame. repeat split. Qed.
 
   Lemma frame_trans a b c : frame a b -> frame b c -> frame a c.
-  Proof. unfold frame. intros (A1&A2&A3&A4&A5&A6&A7) (B1&B2&B3&B4&B5&B6&B7). repeat split; try congruence. lia. Qed.
+  Proof. unfold frame. intros (A1&A2&A3&A4&A5&A6&A7) (B1&B2&B3&B4&B5&B6&B7). repeat split; congruence. Qed.
 
   Lemma frame_K a b x : frame a b -> K a x -> K b x.
   Proof.
@@ -123,13 +122,12 @@ Section Exporter.
   Qed.
 
   Lemma on_done_frame d r st : frame st (on_done o d r st).
-  Proof.
+  Proof using Hsig. (* the signature of the lemmas built on this one is kept *)
     unfold frame, on_done. cbn. repeat split.
-    destruct (is_wfr o && negb (eres_is_ok r)); [rewrite cnt_app, cnt_enq by exact Hsig|]; lia.
   Qed.
 
   Lemma set_ref_frame st r : frame st (set_ref st r).
-  Proof. unfold frame. cbn. repeat split; lia. Qed.
+  Proof. unfold frame. cbn. repeat split. Qed.
 
   Lemma fire_frame r st d : frame st (fire o r st d).
   Proof.
@@ -246,11 +244,12 @@ Section Exporter.
         destruct (fire_frame ROk st d) as (_ & _ & Q & _). rewrite Q.
         replace (fsum (s_flushq st)) with (fsum (s_flushq st) + d_items d) by lia. exact HK.
       + cbn [sumZ] in HS. inversion F as [|? ? F1 F2]; subst.
-        set (st1 := with_ref st d (first :: rest)).
+        set (fhn := negb (1 <? Z.of_nat (length (first :: rest))) || negb (first =? ci)).
+        set (st1 := with_ref st d (if fhn then first :: rest else rest)).
         assert (HK1 : K st1 (fsum (s_flushq st) + d_items d)) by (apply with_ref_K; exact HK).
         assert (Hq1 : s_flushq st1 = s_flushq st) by apply with_ref_flushq.
         assert (Hc1 : s_cur st1 = Some (ci, cd)) by (unfold st1; rewrite with_ref_cur; exact Ec).
-        set (cur' := (first, cd ++ [d])).
+        set (cur' := (first, if fhn then cd ++ [d] else cd)).
         set (ff := (1 <? Z.of_nat (length (first :: rest))) || (mn <=? first)).
         set (st2 := if ff then push_flushes (set_cur st1 None) [cur'] else set_cur st1 (Some cur')).
         (* after placing the first part: the caller still holds the rest *)
